@@ -13,6 +13,7 @@ import RosuModel.Props.C14
 import RosuModel.Props.C16
 import RosuModel.Props.C19
 import RosuModel.Lemmas.CurveTotal
+import RosuModel.Lemmas.EncodeTotal
 namespace Rosu.C01
 open Rosu
 
@@ -297,5 +298,184 @@ theorem decode_hitobjects_total_modulo_fuel (bs : List UInt8) :
   · exact Or.inl ⟨m, hm⟩
   · exact Or.inr hf
 
+
+/-! ### the encoder
+
+`Encode.encode` can fail through `Curve::new` (never a panic, above) and through the slider-event iterator:
+`SliderEventsIter::new` evaluates `tick_dist.clamp(0.0, len)` with `len = min(100000, dist)`, and `f64::clamp`
+asserts `min <= max` (`Lemmas/EncodeTotal.lean`: `runUse_panicked_iff`). -/
+
+section Encoder
+open Rosu.Encode
+
+theorem curveDist_safe (s : HitObjectSlider F P) : Safe (fun _ => True) (curveDist s) := by
+  unfold curveDist
+  refine Safe.bind (new_safe curveFuel s.path.mode s.path.controlPoints s.path.expectedDist emptyBuffers
+    emptyBuffers_wf) ?_
+  rintro ⟨c, b⟩ _
+  exact True.intro
+
+theorem addPathData_safe (s : HitObjectSlider F P) (pos : Pos P) (mode : GameMode) :
+    Safe (fun _ => True) (addPathData s pos mode) := by
+  unfold addPathData
+  simp only []
+  split
+  · exact True.intro
+  · refine Safe.bind (curveDist_safe s) ?_
+    intro _ _
+    exact True.intro
+
+theorem encodeObject_safe (mode : GameMode) (h : HitObject F P) : Safe (fun _ => True) (encodeObject mode h) := by
+  unfold encodeObject
+  cases h.kind with
+  | circle c => exact True.intro
+  | spinner c => exact True.intro
+  | hold c => exact True.intro
+  | slider s =>
+    refine Safe.bind (addPathData_safe s _ mode) ?_
+    intro _ _
+    exact True.intro
+
+theorem encodeObjects_safe (mode : GameMode) (hs : List (HitObject F P)) :
+    Safe (fun _ => True) (encodeObjects mode hs) := by
+  induction hs with
+  | nil => exact True.intro
+  | cons x rest ih =>
+    unfold encodeObjects
+    refine Safe.bind (encodeObject_safe mode x) ?_
+    intro a _
+    exact Safe.bind ih (fun _ _ => True.intro)
+
+/-- **the `[HitObjects]` part of the encoder never panics**, for any map (`add_path_data` computes a curve only
+for a slider without expected distance, on fresh buffers). -/
+theorem encodeHitObjects_no_panic (m : Beatmap F P) : encodeHitObjects m ≠ .error .panic := by
+  have : Safe (fun _ => True) (encodeHitObjects m) := by
+    unfold encodeHitObjects
+    exact Safe.bind (encodeObjects_safe _ _) (fun _ _ => True.intro)
+  exact this.no_panic
+
+/-- the `clamp` assertion holds for the natural distance of every slider of the object list: whenever the curve
+of a slider is computed (no fuel exhaustion) its distance `d` satisfies `0 <= min(100000, d)`. -/
+def DistOk (hs : List (HitObject F P)) : Prop :=
+  ∀ h ∈ hs, ∀ s, h.kind = .slider s → ∀ d : F, curveDist s = .ok d →
+    Scalar.le (0 : F) (Scalar.min (100000 : F) d) = true
+
+theorem collectObject_safe (m : Beatmap F P) (h : HitObject F P) (buf : List (SliderEvents.SliderEvent F))
+    (hd : ∀ s, h.kind = .slider s → ∀ d : F, curveDist s = .ok d →
+      Scalar.le (0 : F) (Scalar.min (100000 : F) d) = true) :
+    Safe (fun _ => True) (collectObject m h buf) := by
+  unfold collectObject
+  cases hk : h.kind with
+  | circle c => exact True.intro
+  | spinner c => exact True.intro
+  | hold c => exact True.intro
+  | slider s =>
+    simp only []
+    refine Safe.bind' (curveDist_safe s) ?_
+    intro d hdist _
+    have hle := hd s hk d hdist
+    cases m.general.mode with
+    | taiko => exact True.intro
+    | mania => exact True.intro
+    | osu =>
+      simp only []
+      have : Safe (fun _ => True) (osuSliderSamples m h s d
+          ((Scalar.ofInt (s.repeatCount + 1) : F) * d / s.velocity) buf) := by
+        unfold osuSliderSamples
+        simp only []
+        refine Safe.bind (sliderEventList_safe _ _ _ d _ _ buf hle) ?_
+        rintro ⟨evs, b⟩ _
+        exact True.intro
+      refine Safe.bind this ?_
+      rintro ⟨pts, b⟩ _
+      exact True.intro
+    | «catch» =>
+      simp only []
+      have : Safe (fun _ => True) (catchSliderSamples m h s d
+          ((Scalar.ofInt (s.repeatCount + 1) : F) * d / s.velocity) buf) := by
+        unfold catchSliderSamples
+        simp only []
+        refine Safe.bind (sliderEventList_safe _ _ _ d _ _ buf hle) ?_
+        rintro ⟨evs, b⟩ _
+        exact True.intro
+      refine Safe.bind this ?_
+      rintro ⟨pts, b⟩ _
+      exact True.intro
+
+theorem collectAll_safe (m : Beatmap F P) (hs : List (HitObject F P)) (hd : DistOk hs) :
+    ∀ buf, Safe (fun _ => True) (collectAll m hs buf) := by
+  induction hs with
+  | nil => intro _; exact True.intro
+  | cons x rest ih =>
+    intro buf
+    unfold collectAll
+    refine Safe.bind (collectObject_safe m x buf (fun s hk d hc => hd x (by simp) s hk d hc)) ?_
+    rintro ⟨a, b⟩ _
+    simp only []
+    exact Safe.bind (ih (fun h hh => hd h (by simp [hh])) b) (fun _ _ => True.intro)
+
+theorem encode_safe_of_nonneg_dist (m : Beatmap F P) (hd : DistOk m.hitObjects) :
+    Safe (fun _ => True) (encode m) := by
+  unfold encode
+  have ht : Safe (fun _ => True) (encodeTimingPoints m) := by
+    unfold encodeTimingPoints
+    have hc : Safe (fun _ => True) (collectSamples m) := by
+      unfold collectSamples
+      exact Safe.bind (collectAll_safe m m.hitObjects hd []) (fun _ _ => True.intro)
+    exact Safe.bind hc (fun _ _ => True.intro)
+  refine Safe.bind ht ?_
+  intro t _
+  exact Safe.bind (Safe.of_no_panic (encodeHitObjects_no_panic m)) (fun _ _ => True.intro)
+
+/-- **`Beatmap::encode` never panics when the `clamp` assertion of the slider-event iterator holds**: if for every
+slider of the map the curve distance `d` satisfies `0 <= min(100000, d)`, then the encoder yields the text or runs
+out of model fuel (curve loops, tick loop) — it does not panic. Any map: decoded or hand-built. -/
+theorem encode_no_panic_of_nonneg_dist (m : Beatmap F P) (hd : DistOk m.hitObjects) :
+    encode m ≠ .error .panic :=
+  (encode_safe_of_nonneg_dist m hd).no_panic
+
+/-- maps without sliders: the encoder always succeeds with a text. -/
+theorem encode_no_panic_without_sliders (m : Beatmap F P) (hno : ∀ h ∈ m.hitObjects, ∀ s, h.kind ≠ .slider s) :
+    encode m ≠ .error .panic :=
+  encode_no_panic_of_nonneg_dist m (fun h hh s hk => absurd hk (hno h hh s))
+
+/-- **the hypothesis is necessary**: the per-object collection step of an osu!-mode map panics as soon as one
+computed slider distance violates the assertion (`f64::clamp`'s `assert!(min <= max)`). -/
+theorem collectObject_panics (m : Beatmap F P) (h : HitObject F P) (s : HitObjectSlider F P) (d : F)
+    (buf : List (SliderEvents.SliderEvent F)) (hm : m.general.mode = .osu) (hk : h.kind = .slider s)
+    (hdist : curveDist s = .ok d) (hbad : Scalar.le (0 : F) (Scalar.min (100000 : F) d) = false) :
+    collectObject m h buf = .error .panic := by
+  unfold collectObject
+  simp only [hk, hdist, Outcome.ok_bind, hm]
+  unfold osuSliderSamples
+  simp only []
+  rw [sliderEventList_panics _ _ _ d _ _ buf hbad]
+  rfl
+
+/-- **what remains for `encode_total` on decoded maps** (not proved): every slider of a map that was obtained by
+decoding has a curve distance `d` with `0 <= min(100000, d)`.
+
+`d` is the last cumulative length. The decoder stores `expected_dist = Some(L)` only for `L = max(parsed, 0) ≥ ε`
+(C14), so by C16 `calculateLength_some` the distance is one of: `L` itself (> 0: fine), `0.0` (fine), or the natural
+length `optimized_len + Σ |pᵢ₊₁ − pᵢ|` (near / equal-tail / no expected distance). A NaN natural length (F11, F13)
+is harmless: `f64::min(100000, NaN) = 100000` (`min_maxLen_nan`). What is needed is therefore *non-negativity of
+the natural length*: `Σ |pᵢ₊₁ − pᵢ| ≥ 0` is an order law of `+`/`sqrt`, and `optimized_len`
+(`Σ (removed − chord)` of the osu! Catmull simplification) must not outweigh it — the triangle inequality up to
+rounding. Both are arithmetic (law-dependent) facts; the control flow proved here does not give them. -/
+def decoded_dist_nonneg_statement (F P : Type) [Scalar F] [Scalar P] [Cvt P F] [Trig F] [Trig P] : Prop :=
+  ∀ (bs : List UInt8) (st : BeatmapState F P) (m : Beatmap F P),
+    decodeBytes beatmapDecoder bs = .ok st → st.finish = .ok m → DistOk m.hitObjects
+
+/-- `encode_total` modulo fuel, for decoded maps. -/
+def encode_decoded_no_panic_statement (F P : Type) [Scalar F] [Scalar P] [Cvt P F] [Trig F] [Trig P] : Prop :=
+  ∀ (bs : List UInt8) (st : BeatmapState F P) (m : Beatmap F P),
+    decodeBytes beatmapDecoder bs = .ok st → st.finish = .ok m → encode m ≠ .error .panic
+
+/-- the arithmetic statement is all that is missing. -/
+theorem encode_decoded_no_panic_of_dist_nonneg (h : decoded_dist_nonneg_statement F P) :
+    encode_decoded_no_panic_statement F P :=
+  fun bs st m h1 h2 => encode_no_panic_of_nonneg_dist m (h bs st m h1 h2)
+
+end Encoder
 
 end Rosu.C01
